@@ -24,10 +24,9 @@ func c06Opts() (o specOpts, msg verif.Opts) {
 			actKinds: []int{aSet, aFail}, grdKinds: []int{aIdent, aNilBs, aFail}, pooled: true, small: true, noLog: true}
 		if verif.Tier() > 0 {
 			// (two branches with every action and guard behaviour and free error settings did not finish in
-			// 30 minutes; the thorough tier widens branches and error settings and keeps the behaviours of the
-			// quick tier - slice 0 covers every action behaviour)
+			// 30 minutes, nor did two branches with free error settings in 15; the thorough tier takes two
+			// branches and - see c06Inputs - one more message and one more step)
 			o.branches = 2
-			o.fixedErr = false
 		}
 	}
 	return o, msg
